@@ -3,6 +3,7 @@ package harness
 // sysfam.go — workloads on two or more linked registries (black-box families).
 
 import (
+	"github.com/pojntfx/panrpc/go/pkg/rpc"
 	"context"
 	"errors"
 	"fmt"
@@ -140,7 +141,7 @@ func FamConc[T any](c Codec[T], seed int64) SysRecord {
 			from, rem = "B", p.rb
 		}
 		tag := 100 + i
-		kind := r.Intn(8)
+		kind := r.Intn(9)
 		x := int64(r.Intn(1000))
 		s := GenString(r)
 		wg.Add(1)
@@ -172,6 +173,12 @@ func FamConc[T any](c Codec[T], seed int64) SysRecord {
 			case 5: // ... and at the top level
 				c.Method, c.Arg = "After", "null"
 				v, err := rem.After(context.Background(), tag)
+				c.Ret, c.Err = canon(v), errText(err)
+			case 8: // a call made with a context that is already cancelled: it fails, the others and the link are unaffected
+				cctx, ccancel := context.WithCancel(context.Background())
+				ccancel()
+				c.Method, c.Arg = "EchoIntCancelled", canon(x)
+				v, err := rem.EchoInt(cctx, tag, x)
 				c.Ret, c.Err = canon(v), errText(err)
 			case 6: // a function whose handler returns nothing at all
 				c.Method, c.Arg = "Notify0", "null"
@@ -288,7 +295,7 @@ func FamValues[T any](c Codec[T], stream bool, chunk int, seed int64, n int) Sys
 		}
 		tag := 200 + i
 		cl := SysCall{Tag: tag, From: from}
-		switch r.Intn(19) {
+		switch r.Intn(20) {
 		case 0:
 			x := []int64{0, 1, -1, 1 << 40, -(1 << 40), 9007199254740991, int64(r.Intn(100000))}[r.Intn(7)]
 			cl.Method, cl.Arg, cl.Oracle = "EchoInt", canon(x), roundTrip(c, x)
@@ -391,6 +398,11 @@ func FamValues[T any](c Codec[T], stream bool, chunk int, seed int64, n int) Sys
 			cl.Method, cl.Arg, cl.Oracle = "EchoLevel", canon(string(lv)), canon(string(roundTripVal(c, lv)))
 			v, err := rem.EchoLevel(ctx, tag, lv)
 			cl.Ret, cl.Err = canon(string(v)), errText(err)
+		case 19: // an interface-typed parameter: nil, numbers, strings, lists
+			av := []any{nil, float64(tag), "s" + GenString(r), []any{float64(1), "x", nil}, map[string]any{"k": nil}}[r.Intn(5)]
+			cl.Method, cl.Arg, cl.Oracle = "EchoAny", canon(av), roundTrip(c, av)
+			v, err := rem.EchoAny(ctx, tag, av)
+			cl.Ret, cl.Err = canon(v), errText(err)
 		case 18: // a struct whose field type has a pointer-receiver JSON encoding: the VALUE is what is returned
 			ss := Session{Cred: Cred{User: "u" + GenString(r), Token: "tok-" + fmt.Sprint(tag)}, N: tag}
 			cl.Method, cl.Arg, cl.Oracle = "EchoSession", canon(ss), roundTrip(c, ss)
@@ -455,6 +467,8 @@ func cfgName(codec string, stream bool, chunk int) string {
 }
 
 // ---- C10: errors ----
+func blankMsg(m string) bool { return strings.TrimSpace(m) == "" }
+
 func FamErrors[T any](c Codec[T], stream bool, chunk int, seed int64, n int) SysRecord {
 	r := rand.New(rand.NewSource(seed))
 	rec := SysRecord{Family: "errors", Config: cfgName(c.Name, stream, chunk), Seed: seed}
@@ -474,7 +488,33 @@ func FamErrors[T any](c Codec[T], stream bool, chunk int, seed int64, n int) Sys
 		tag := 300 + i
 		msg := msgs[r.Intn(len(msgs))]
 		cl := SysCall{Tag: tag, From: from, Arg: canon(msg)}
-		switch r.Intn(9) {
+		switch r.Intn(11) {
+		case 9: // a nil POINTER of an error type is a non-nil error: its message arrives (handler and closure)
+			cl.Method, cl.Arg = "FailTypedNil", canon("typed nil error")
+			err := rem.FailTypedNil(ctx, tag)
+			cl.Ret, cl.Err = "null", errText(err)
+			if err == nil {
+				cl.Err = "<nil>"
+			}
+			cl.Done = true
+			rec.Calls = append(rec.Calls, cl)
+			cl2 := SysCall{Tag: tag + 5000, From: from, Arg: canon("typed nil error"), Method: "IterErr"}
+			err2 := rem.IterErr(ctx, tag+5000, 5, func(ctx context.Context, x int) error { var e *ptrErr; return e })
+			cl2.Ret, cl2.Err = "null", errText(err2)
+			if err2 == nil {
+				cl2.Err = "<nil>"
+			}
+			cl = cl2
+		case 10: // an error type that prints differently through fmt: the message that crosses the link is Error()
+			if msg == "<nil>" || blankMsg(msg) {
+				msg = "plain"
+			}
+			cl.Method, cl.Arg = "FailFormatted", canon(msg)
+			err := rem.FailFormatted(ctx, tag, msg)
+			cl.Ret, cl.Err = "null", errText(err)
+			if err == nil {
+				cl.Err = "<nil>"
+			}
 		case 8: // a closure that returns a nil value together with an error (and one with a value, and one with neither)
 			cl.Method = "IterNilErr"
 			v, err := rem.IterNilErr(ctx, tag, func(ctx context.Context, page int) ([]string, error) {
@@ -704,6 +744,19 @@ func FamClosures[T any](c Codec[T], stream bool, chunk int, seed int64, n int) S
 		pcancel()
 		rec.Calls = append(rec.Calls, SysCall{Tag: 487, From: "A", Method: "IterCount", Ret: v, Err: errText(err), Done: true})
 	}
+	// ... whose parameter is a list of lists, one of them nil (null on the wire)
+	{
+		pctx, pcancel := context.WithTimeout(ctx, 5*time.Second)
+		v, err := p.ra.Groups(pctx, 486, func(ctx context.Context, gs [][]string) (string, error) {
+			var parts []string
+			for _, g := range gs {
+				parts = append(parts, fmt.Sprintf("%d%v", len(g), g))
+			}
+			return strings.Join(parts, ","), nil
+		})
+		pcancel()
+		rec.Calls = append(rec.Calls, SysCall{Tag: 486, From: "A", Method: "Groups", Ret: v, Err: errText(err), Done: true})
+	}
 	// one invocation of the callable is cancelled (context of that invocation only) while another is in flight
 	{
 		rel := make(chan struct{})
@@ -743,6 +796,40 @@ func FamClosures[T any](c Codec[T], stream bool, chunk int, seed int64, n int) S
 		mu.Lock()
 		rec.Calls = append(rec.Calls, SysCall{Tag: 483, From: "A", Method: "IterPanicsOnce", Ret: v, Err: errText(err), Done: true, Extra: fmt.Sprint(runs)})
 		mu.Unlock()
+	}
+	// two overlapping calls of the SAME remote function, each passing its own function: when the first returns,
+	// the second call's function is still invocable
+	{
+		type r2 struct {
+			v   int
+			err error
+		}
+		d1, d2 := make(chan r2, 1), make(chan r2, 1)
+		octx, ocancel := context.WithTimeout(ctx, 8*time.Second)
+		go func() {
+			v, err := p.ra.Delayed(octx, 4810, func(ctx context.Context, x int) (int, error) { return x + 100, nil })
+			d1 <- r2{v, err}
+		}()
+		go func() {
+			v, err := p.ra.Delayed(octx, 4811, func(ctx context.Context, x int) (int, error) { return x + 200, nil })
+			d2 <- r2{v, err}
+		}()
+		waitUntil(func() bool { return hasInv(p.w, "Delayed", 4810) && hasInv(p.w, "Delayed", 4811) }, 3*time.Second)
+		close(p.w.gate(4810))
+		var a, b r2
+		select {
+		case a = <-d1:
+		case <-time.After(4 * time.Second):
+			a = r2{-1, errors.New("DID-NOT-RETURN")}
+		}
+		close(p.w.gate(4811))
+		select {
+		case b = <-d2:
+		case <-time.After(4 * time.Second):
+			b = r2{-1, errors.New("DID-NOT-RETURN")}
+		}
+		ocancel()
+		rec.Calls = append(rec.Calls, SysCall{Tag: 4810, From: "A", Method: "OverlappingSameFunction", Ret: fmt.Sprintf("%d/%s;%d/%s", a.v, errText(a.err), b.v, errText(b.err)), Done: true})
 	}
 	// function arguments between plain arguments: every argument arrives in its declared position
 	{
@@ -930,6 +1017,49 @@ func FamClosures[T any](c Codec[T], stream bool, chunk int, seed int64, n int) S
 		}
 		dcancel()
 	}
+	// the callee's handler has returned but its response is still in transit (held by the transport): the call
+	// has not returned on the caller's side, so its function is still invocable
+	if !stream {
+		p.l.BAres.SetHold(true)
+		ranT := 0
+		kdone := make(chan error, 1)
+		go func() {
+			kdone <- p.ra.Keep(ctx, 4970, func(ctx context.Context, x int) (int, error) { ranT++; return x * 3, nil })
+		}()
+		var keptT cbI
+		waitUntil(func() bool {
+			p.w.mu.Lock()
+			keptT = p.w.kept[4970]
+			p.w.mu.Unlock()
+			return keptT != nil && p.l.BAres.HeldLen() >= 1
+		}, 3*time.Second)
+		if keptT != nil {
+			ictx, icancel := context.WithTimeout(ctx, 3*time.Second)
+			idone := make(chan SysCall, 1)
+			go func() {
+				v, err := keptT(ictx, 7)
+				idone <- SysCall{Tag: 4971, From: "B", Method: "InvokeWhileResponseInTransit", Ret: canon(v), Err: errText(err), Done: true}
+			}()
+			// the invocation's own response travels A->B and is not held
+			select {
+			case cl := <-idone:
+				cl.Extra = fmt.Sprint(ranT)
+				rec.Calls = append(rec.Calls, cl)
+			case <-time.After(4 * time.Second):
+				rec.Calls = append(rec.Calls, SysCall{Tag: 4971, From: "B", Method: "InvokeWhileResponseInTransit", Err: "DID-NOT-RETURN", Done: true})
+			}
+			icancel()
+		} else {
+			rec.Notes = append(rec.Notes, "callee did not receive the closure (response-in-transit scenario)")
+		}
+		p.l.BAres.Release(nil)
+		p.l.BAres.SetHold(false)
+		select {
+		case <-kdone:
+		case <-time.After(3 * time.Second):
+			rec.Notes = append(rec.Notes, "the call whose response was held did not return after the response was released")
+		}
+	}
 	// the late invocation is an application-level error: the link stays healthy
 	v2, err2 := p.ra.EchoInt(ctx, 497, 42)
 	rec.Calls = append(rec.Calls, SysCall{Tag: 497, From: "A", Method: "EchoInt", Arg: "42", Ret: canon(v2), Err: errText(err2), Done: true, Extra: "probe"})
@@ -1067,9 +1197,18 @@ func FamNest[T any](c Codec[T], stream bool, chunk int, seed int64) SysRecord {
 		rec.Hang = true
 		rec.Notes = append(rec.Notes, fmt.Sprintf("calls issued while %d handlers were stalled did not complete (depth %d)", 2*k, depth))
 	}
+	// a handler that starts a call back to its peer on a goroutine of its own and returns at once (a
+	// subscription): its response does not wait for that call, whose handler is stalled
+	{
+		sctx, scancel := context.WithTimeout(ctx, 4*time.Second)
+		v, err := p.ra.Spawn(sctx, 640)
+		scancel()
+		add(SysCall{Tag: 640, From: "A", Method: "Spawn", Ret: canon(v), Err: errText(err), Done: true})
+	}
 	for i := 0; i < 2*k; i++ {
 		close(p.w.gate(500 + i))
 	}
+	close(p.w.gate(641))
 	if !waitAll(&wg, 10*time.Second) {
 		rec.Hang = true
 	}
@@ -1084,6 +1223,11 @@ func FamHub[T any](c Codec[T], seed int64) SysRecord {
 	rec := SysRecord{Family: "hub", Config: c.Name + "/message", Seed: seed}
 	w := newWorld()
 	hub := NewSysNode[T](w, "H")
+	// the hub hands ONE LinkHooks value to all its links (legal: the value is the application's)
+	hub.SharedHooks = &rpc.LinkHooks{
+		OnClientConnect:    func(id string) { w.log(SysEvent{Node: "H", Kind: "hook", Method: "link-connect", Remote: id}) },
+		OnClientDisconnect: func(id string) { w.log(SysEvent{Node: "H", Kind: "hook", Method: "link-disconnect", Remote: id}) },
+	}
 	n := 2 + r.Intn(3)
 	spokes := make([]*SysNode[T], n)
 	links := make([]*SysLink[T], n)
